@@ -14,7 +14,8 @@ Reading of Python that is ADDED here (together with Model/PyPreludeReadLine.lean
               `env : RL.Env ω`, computations in `Py.MS ω = ExceptT Err (StateM ω)` over an opaque object world (the world keeps what happened before
               an exception).  `G is not None` / `G is None` for a slot `G`: `(env.g.G).isSome` / `.isNone`.
   G(args)        a call of a slot (stub `CTOR`: the parameter names of the library classes' `__init__`, positional or keyword; omitted
-              parameters are `None`): `(← env.G a1 …)` - evaluated left to right, then the request.  `Complex(a, None, n)`: the second argument
+              parameters are `None`): `(← RL.call env.g.G (env.G a1 …))` - the arguments evaluated left to right, then the call: TypeError when the slot
+              `G` is `None` (a branch guards ONE slot but may call another: `composite-domain` tests `Strand` and calls `Domain`), else the request.  `Complex(a, None, n)`: the second argument
               must be the literal `None` (only the look-up form is translated).
   x == 'lit'     `x` typed `PP.Tree` / `Option PP.Tree`: `Py.treeEqStr x "lit"` / `Py.otreeEqStr` (a list equals no str).
   int(x)         `x` typed `PP.Tree`: `(← Py.treeInt x) : Nat` (decimal digits; TypeError for a list, ValueError otherwise).
@@ -182,7 +183,7 @@ class ReadLineTx(ReactionTx):
                         continue
                     c, tc = self.ex(given[q], tq)
                     args.append(self.need(c, tc, tq))
-                return '(← env.%s %s)' % (f, ' '.join(args)), H
+                return '(← RL.call env.g.%s (env.%s %s))' % (f, f, ' '.join(args)), H
         if isinstance(node, ast.Name) and node.id in SLOTS and self.is_slot(node):
             raise Shape('%s: the slot %s is used other than in `is None` tests and calls' % (self.name, node.id))
         return super().ex(node, expect)
